@@ -8,6 +8,8 @@
 //	                           no load / def / add may address it; the only core type name a line may use is Integer
 //	        | (p P)            px.NewParentedLoader(parent), parent = node P, or the static loader when P = -1
 //	        | (f P)            the loader of ctx_P.Fork()  (Context.Fork creates a parented child loader); P >= 0
+//	        | (ts P)           px.NewTypeSetLoader(loader_P, TS) with the fixed type set TS = My {Foo = Integer[1,1],
+//	                           Bar = Integer[2,2]}; P >= 0; a LEAF (no node may be parented on it)
 //	NAME  ::= (n NS xNAME A)   px.NewTypedName2(NS, NAME, authority); A = r (runtime authority) | o (another authority)
 //	VAL   ::= (t N)            the type Integer[N,N]     (a fresh object every time: equality goes through Equals)
 //	        | (s N)            the String value "N"      (a non-Type that implements Equality)
@@ -61,12 +63,17 @@ type refState struct {
 	parent []int               // -1 = none
 	own    []map[string]string // loader → key → canonical value text
 	fold   bool                // true: names differing only in letter case denote one entry
+	ts     []bool              // loader is a type-set loader: it binds the members of its type set (prefilled in own for
+	// the names of the line) and hands every definition to its parent
+	alias []map[string]bool // type-set loader → keys that are qualified paths (My::Foo) to a member, not member names
 }
 
 func newRef(parent []int, fold bool) *refState {
 	r := &refState{parent: parent, fold: fold}
 	for range parent {
 		r.own = append(r.own, map[string]string{})
+		r.ts = append(r.ts, false)
+		r.alias = append(r.alias, map[string]bool{})
 	}
 	return r
 }
@@ -95,11 +102,20 @@ func (r *refState) resolve(l int, key string) (string, bool) {
 			return v, true
 		}
 	}
+	if r.ts[l] {
+		// a type-set loader also answers for a name given relative to its type set: My::X is X, looked up the same way
+		if i := strings.LastIndexByte(key, '/'); strings.HasPrefix(strings.ToLower(key[i+1:]), "my::") {
+			return r.resolve(l, key[:i+1]+key[i+5:])
+		}
+	}
 	return "", false
 }
 
 // define: write-once.  Returns "ok" (bound now or equal re-definition) or "rejected".
 func (r *refState) define(l int, key, v string) string {
+	if r.ts[l] {
+		l = r.parent[l] // a type-set loader defines nothing itself
+	}
 	if old, ok := r.own[l][key]; ok {
 		if old == v {
 			return "ok"
@@ -116,7 +132,7 @@ func (r *refState) discover(l int, pred func(key string) bool) []string {
 	out := []string{}
 	for _, a := range r.chain(l) {
 		for k := range r.own[a] {
-			if !seen[k] && pred(k) {
+			if !seen[k] && pred(k) && !r.alias[a][k] {
 				seen[k] = true
 				out = append(out, k)
 			}
@@ -231,8 +247,18 @@ func hasStatic(tree sx.Sexp) bool {
 	return len(a) > 0 && a[0].Tag() == "st" && len(a[0].Args()) == 0
 }
 
+// tsNodes: which nodes of the tree are type-set loaders
+func tsNodes(tree sx.Sexp) []bool {
+	var ts []bool
+	for _, nd := range tree.Args() {
+		ts = append(ts, nd.Tag() == "ts")
+	}
+	return ts
+}
+
 func parseLine(args []sx.Sexp) (parent []int, forked []bool, steps []stepT) {
 	must(len(args) == 2 && args[0].Tag() == "tree" && args[1].Tag() == "steps", "shape")
+	isTS := tsNodes(args[0])
 	for i, nd := range args[0].Args() {
 		a := nd.Args()
 		if nd.Tag() == "st" && len(a) == 0 {
@@ -241,10 +267,12 @@ func parseLine(args []sx.Sexp) (parent []int, forked []bool, steps []stepT) {
 			forked = append(forked, false)
 			continue
 		}
-		must((nd.Tag() == "p" || nd.Tag() == "f") && len(a) == 1, "node")
+		must((nd.Tag() == "p" || nd.Tag() == "f" || nd.Tag() == "ts") && len(a) == 1, "node")
 		p, err := a[0].AsInt()
 		must(err == nil && p >= -1 && int(p) < i, "parent index")
 		must(nd.Tag() == "p" || p >= 0, "fork of nothing")
+		must(p < 0 || !isTS[p], "a type-set loader is a leaf")
+		must(!(nd.Tag() == "ts" && hasStatic(args[0]) && p == 0), "type-set loader on the static loader")
 		parent = append(parent, int(p))
 		forked = append(forked, nd.Tag() == "f")
 	}
@@ -340,7 +368,42 @@ func exec(c px.Context, op string, args []sx.Sexp) (res core.Result) {
 		}
 	}()
 	parent, forked, steps := parseLine(args)
-	return run(parent, forked, steps, hasStatic(args[0]))
+	return run(c, parent, forked, tsNodes(args[0]), steps, hasStatic(args[0]))
+}
+
+// the fixed type set of every type-set loader node, resolved once in a throw-away fork (so that none of its types gets
+// bound in a loader of a line); it is immutable afterwards
+const typeSetSrc = `TypeSet[{ name => 'My', version => '1.0.0', pcore_version => '1.0.0',
+  types => { Foo => Integer[1,1], Bar => Integer[2,2] }}]`
+
+var theTypeSet px.TypeSet
+var tsMembers = map[string]string{"foo": "(al x4d793a3a466f6f 1)", "bar": "(al x4d793a3a426172 2)"}
+
+func typeSet(c px.Context) px.TypeSet {
+	if theTypeSet == nil {
+		scratch := c.Fork()
+		t := scratch.ParseType(typeSetSrc)
+		px.AddTypes(scratch, t)
+		theTypeSet = t.(px.TypeSet)
+	}
+	return theTypeSet
+}
+
+// tsMember: the member a key denotes for the type-set loader — `…/type/foo` (alias = false) or a qualified path
+// `…/type/my::foo`, `…/type/my::my::foo` … (alias = true)
+func tsMember(key string) (val string, alias, ok bool) {
+	pfx := strings.ToLower(string(px.RuntimeNameAuthority)) + "/type/"
+	k := strings.ToLower(key)
+	if !strings.HasPrefix(k, pfx) {
+		return
+	}
+	n := k[len(pfx):]
+	for strings.HasPrefix(n, "my::") {
+		n = n[4:]
+		alias = true
+	}
+	val, ok = tsMembers[n]
+	return
 }
 
 type world struct {
@@ -348,9 +411,15 @@ type world struct {
 	ctxs    []px.Context
 }
 
-func build(parent []int, forked []bool, static bool) *world {
+func build(parent []int, forked []bool, static bool, ts []bool, tset px.TypeSet) *world {
 	w := &world{}
 	for i, p := range parent {
+		if ts != nil && ts[i] {
+			l := px.NewTypeSetLoader(w.loaders[p], tset).(px.DefiningLoader)
+			w.loaders = append(w.loaders, l)
+			w.ctxs = append(w.ctxs, pcore.NewContext(l, pcore.Logger()))
+			continue
+		}
 		if static && i == 0 {
 			l := px.StaticLoader().(px.DefiningLoader)
 			w.loaders = append(w.loaders, l)
@@ -381,10 +450,20 @@ func (n nameT) tn() px.TypedName {
 // coreKey: the map keys of the core types a line may name
 var coreKeys = map[string]string{string(px.RuntimeNameAuthority) + "/type/integer": "integer"}
 
-func run(parent []int, forked []bool, steps []stepT, static bool) core.Result {
-	w := build(parent, forked, static)
+func run(c px.Context, parent []int, forked []bool, ts []bool, steps []stepT, static bool) core.Result {
+	anyTS := false
+	for _, b := range ts {
+		anyTS = anyTS || b
+	}
+	var tset px.TypeSet
+	if anyTS {
+		tset = typeSet(c)
+	}
+	w := build(parent, forked, static, ts, tset)
 	ref := newRef(parent, true)
 	exact := newRef(parent, false) // the same reference without case folding: only used to NAME a failure `case-split`
+	copy(ref.ts, ts)
+	copy(exact.ts, ts)
 
 	// the names of this line (the universe every observation ranges over), by canonical key
 	names := []nameT{}
@@ -393,6 +472,24 @@ func run(parent []int, forked []bool, steps []stepT, static bool) core.Result {
 		if s.op != "disc" {
 			names = append(names, s.name)
 			keys[ref.key(s.name)] = true
+			if anyTS {
+				// a type-set loader also works on the name relative to its type set (My::Baz → Baz)
+				for n := s.name; strings.HasPrefix(strings.ToLower(strings.TrimPrefix(n.name, "::")), "my::"); {
+					n.name = strings.TrimPrefix(n.name, "::")[4:]
+					names = append(names, n)
+					keys[ref.key(n)] = true
+				}
+			}
+		}
+	}
+	for i, b := range ts {
+		if b {
+			// what the type-set loader binds, as far as this line can see it
+			for _, n := range names {
+				if v, alias, ok := tsMember(ref.key(n)); ok && !alias && n.ns == "type" {
+					ref.own[i][ref.key(n)], exact.own[i][exact.key(n)] = v, v
+				}
+			}
 		}
 	}
 	for k := range keys {
@@ -468,7 +565,12 @@ func run(parent []int, forked []bool, steps []stepT, static bool) core.Result {
 				missed[fmt.Sprint(s.l, " ", ref.key(s.name))] = true
 			}
 			if out != want {
-				setFail(classOr("resolve-wrong", out == wantX), fmt.Sprintf("%s: load answered %s, the reference resolves to %s", at, out, want))
+				class := classOr("resolve-wrong", out == wantX)
+				if own, _, isMember := tsMember(ref.key(s.name)); ref.ts[s.l] && isMember && s.name.ns == "type" && out == "found "+own {
+					// the type set is asked for an unqualified member name before any ancestor
+					class = "typeset-member-before-ancestors"
+				}
+				setFail(class, fmt.Sprintf("%s: load answered %s, the reference resolves to %s", at, out, want))
 			}
 		case "has":
 			looked = true
@@ -500,7 +602,9 @@ func run(parent []int, forked []bool, steps []stepT, static bool) core.Result {
 			want, okW := ref.own[s.l][ref.key(s.name)]
 			wantX, okX := exact.own[s.l][exact.key(s.name)]
 			got, okG := strings.TrimPrefix(out, "found "), strings.HasPrefix(out, "found ")
-			if okG != okW || (okG && got != want) {
+			if ref.ts[s.l] {
+				// GetEntry of a type-set loader shows its entry map (cached misses) only, never a member: nothing to compare
+			} else if okG != okW || (okG && got != want) {
 				setFail(classOr("resolve-wrong", okG == okX && (!okG || got == wantX)), fmt.Sprintf("%s: get answered %s, the reference own binding is %q", at, out, want))
 			}
 		case "def", "add":
@@ -613,6 +717,20 @@ func observe(w *world, ref, exact *refState, names []nameT, at string, missed ma
 	for li, l := range w.loaders {
 		for _, n := range names {
 			k := ref.key(n)
+			if ref.ts[li] {
+				// a type-set loader: its entry map holds no bindings and its LoadEntry caches misses (a side effect the
+				// model would not see): only HasEntry is asked
+				var has bool
+				if r := safely(func() { has = l.HasEntry(n.tn()) }); r != "" {
+					setFail("fault", fmt.Sprintf("%s: HasEntry crashed", at))
+					return
+				}
+				if _, okW := ref.resolve(li, k); has != okW {
+					setFail("resolve-wrong", fmt.Sprintf("after %s: through type-set loader %d HasEntry(%s) = %v, the reference %v", at, li, k, has, okW))
+					return
+				}
+				continue
+			}
 			// own binding
 			var e px.LoaderEntry
 			if r := safely(func() { e = l.GetEntry(n.tn()) }); r != "" {
@@ -734,6 +852,35 @@ func gen(g *core.G) {
 		rec2(nil)
 	}
 
+	// a type-set loader as the leaf of a chain of depth 3: histories of length <= 3 (quick) / <= 4 (thorough) over
+	// 0 <- 1 <- ts 2, the names {My::Foo, Foo, My::Baz} (a qualified member path, a member name, no member)
+	{
+		var alpha []string
+		for l := 0; l < 3; l++ {
+			for _, n := range []string{"My::Foo", "Foo", "My::Baz"} {
+				x := nm("type", n, "r")
+				alpha = append(alpha, fmt.Sprintf("(load %d %s)", l, x), fmt.Sprintf("(has %d %s)", l, x))
+				if l < 2 {
+					alpha = append(alpha, fmt.Sprintf("(def %d %s (t 7))", l, x))
+				}
+			}
+			alpha = append(alpha, fmt.Sprintf("(disc %d all)", l))
+		}
+		var rec3 func(prefix []string)
+		rec3 = func(prefix []string) {
+			if len(prefix) > 0 {
+				g.Emit("hist (tree (p -1) (p 0) (ts 1)) (steps " + strings.Join(prefix, " ") + ")")
+			}
+			if len(prefix) == maxLen {
+				return
+			}
+			for _, a := range alpha {
+				rec3(append(prefix, a))
+			}
+		}
+		rec3(nil)
+	}
+
 	// 2. random histories of length 40 (every third one: 3..8) over random trees of depth <= 3
 	r := g.Rng
 	names := []string{nm("type", "a", "r"), nm("type", "A", "r"), nm("type", "b", "r"), nm("type", "m::a", "r"), nm("type", "M::A", "r"),
@@ -774,6 +921,11 @@ func gen(g *core.G) {
 			}
 			tree = append(tree, fmt.Sprintf("(%s %d)", kind, p))
 		}
+		tsLeaf := !static && r.Intn(4) == 0
+		if tsLeaf {
+			tree = append(tree, fmt.Sprintf("(ts %d)", r.Intn(nl)))
+			nl++
+		}
 		// a few names per history so that they collide often
 		k := 2 + r.Intn(3)
 		local := make([]string, k)
@@ -782,6 +934,12 @@ func gen(g *core.G) {
 		}
 		if static {
 			local[0] = core.Pick(r, []string{nm("type", "Integer", "r"), nm("type", "integer", "r"), nm("type", "::INTEGER", "r")})
+		}
+		if tsLeaf {
+			local[0] = core.Pick(r, []string{nm("type", "My::Foo", "r"), nm("type", "my::FOO", "r"), nm("type", "Foo", "r"), nm("type", "My::Baz", "r"), nm("type", "My::My::Bar", "r"), nm("function", "My::Foo", "r")})
+			if k > 1 {
+				local[1] = core.Pick(r, []string{nm("type", "bar", "r"), nm("type", "My::Bar", "r"), nm("type", "foo", "o")})
+			}
 		}
 		var steps []string
 		hl := 40
